@@ -175,6 +175,38 @@ def is_helper(g: FuncInfo) -> bool:
     return n <= 900
 
 
+def caller_ok(ctx: "Ctx", f: FuncInfo, allowed: Callable[[FuncInfo], bool], _seen: Optional[Set[str]] = None) -> bool:
+    """Is f an allowed caller/writer, directly or as a private helper all of whose own
+    callers are (recursively) allowed?  Extracting code into a helper must not change a
+    who-may-call / who-may-write verdict."""
+    if allowed(f):
+        return True
+    seen = set(_seen or ())
+    if f.qualname in seen or not is_helper(f):
+        return False
+    seen.add(f.qualname)
+    sites = ctx.cg.sites_calling(f.qualname)
+    if not sites:
+        return False
+    return all(caller_ok(ctx, s.caller, allowed, seen) for s in sites)
+
+
+def nonempty_decision(p: Path, seq: Term) -> Optional[bool]:
+    """polarity of the path's decision `seq is non-empty` (len(seq) > 0, len(seq) == 0, truthiness)"""
+    seq = strip_ver(seq)
+    ln = ("call", ("name", "len"), (seq,), (), None)
+    res: Optional[bool] = None
+    for c, pol, _ in p.conds:
+        c = strip_ver(c)
+        if c == ("cmp", "<", ("const", 0), ln) or c == ("cmp", "<=", ("const", 1), ln):
+            res = pol
+        elif c in (("cmp", "==", ("const", 0), ln), ("cmp", "==", ln, ("const", 0)), ("cmp", "<=", ln, ("const", 0)), ("cmp", "<", ln, ("const", 1))):
+            res = not pol
+        elif c == seq or c == ln:
+            res = pol
+    return res
+
+
 def count_paths(ps: List[Path]) -> int:
     n = len(ps)
     for p in ps:
